@@ -303,28 +303,25 @@ func (w *World) threadFor(path string, frames []string) (thread, site string) {
 	if name, ok := w.apiGoids[goid()]; ok {
 		return name, site
 	}
+	// The logical thread is derived from the OBJECT operated on, not from function names (a refactor that renames
+	// engine functions must not change what the monitors see): everything on a sequence or one of its actions is the
+	// sequence's thread, a check action is its own thread, a checks group its own, blocks and plans are the plan's
+	// main thread. Boot work of a new Workstream runs on the driver goroutine and never parks.
 	oi := w.Objs[path]
-	plan := "P?"
-	if oi != nil {
-		plan = fmt.Sprintf("P%d", oi.Plan)
+	if oi == nil {
+		return "main:P?", site
 	}
 	switch {
-	case hasFrame(frames, ".execSeq"):
-		if oi != nil && oi.Kind == "action" {
-			return oi.Parent, site
-		}
-		return path, site
-	case hasFrame(frames, ".runAction") || hasFrame(frames, "actions.Runner"):
-		return path, site
-	case hasFrame(frames, ".runChecksOnce"), hasFrame(frames, ".runContChecks"):
-		if oi != nil && oi.Kind == "action" {
-			return oi.Parent, site
-		}
-		return path, site
-	case hasFrame(frames, "execute.(*recover)"), hasFrame(frames, "execute.New"):
-		return "boot", site
+	case oi.Kind == "seq":
+		return oi.Path, site
+	case oi.Kind == "action" && oi.Seq >= 0:
+		return oi.Parent, site
+	case oi.Kind == "action":
+		return oi.Path, site
+	case oi.Kind == "checks":
+		return oi.Path, site
 	}
-	return "main:" + plan, site
+	return fmt.Sprintf("main:P%d", oi.Plan), site
 }
 
 // ---------------------------------------------------------------------------------------------
